@@ -28,7 +28,7 @@ REAL = ["rpyc.core.protocol.Connection._check_attr/_access_attr and all attribut
         "(Service hooks, SlaveService.on_connect)", "netref/brine/channel/stream"]
 STUB = ["sockets/poll/time/locks (simulator)"]
 ASSUMPTIONS = ["the policy model is written from the statement and the DEFAULT_CONFIG documentation"]
-PROBES = ["c06:twin-used", "c06:deny", "c06:hook-decided", "c06:isolation-run"]
+PROBES = ["c06:twin-used", "c06:deny", "c06:hook-decided", "c06:isolation-run", "c06:settings-dict-reused"]
 PREFIXES = ("exposed_", "x_", "", "éx_")
 _CASES = None
 CHUNK = 16
@@ -92,6 +92,8 @@ def run_one(choices, params):
     info = {"states": set(), "n": 0, "policy": 0}
     default_snapshot = copy.deepcopy(dict((k, v) for k, v in DEFAULT_CONFIG.items()))
 
+    shared = {} if (mode == "isolation" and w.draw(2)) else None
+
     def main(sim, k):
         conns = []
         with pair.Knobs(c):
@@ -100,6 +102,20 @@ def run_one(choices, params):
                     ca, cb, _, srv = pair.connect_pair_serving(k, rpyc.ClassicService(), rpyc.SlaveService())
                     model_conf = dict(DEFAULT_CONFIG)
                     model_conf.update(allow_all_attrs=True, allow_getattr=True, allow_setattr=True, allow_delattr=True, allow_exposed_attrs=False)
+                elif shared is not None:
+                    # the owner keeps ONE settings dict, edits it and opens the next connection with it: every connection has the
+                    # settings the dict held when that connection was made, whatever happens to the dict afterwards
+                    from rpyc.core.channel import Channel
+                    from rpyc.core.stream import SocketStream
+                    a, b = k.socketpair()
+                    shared.clear()
+                    shared.update(conf)
+                    ca = rpyc.VoidService()._connect(Channel(SocketStream(a), True), {"connid": "A%d" % ci})
+                    cb = rpyc.VoidService()._connect(Channel(SocketStream(b), True), shared)
+                    srv = sim.spawn(cb.serve_all, _name="B%d.serve_all" % ci)
+                    sim.count("c06:settings-dict-reused")
+                    model_conf = dict(DEFAULT_CONFIG)
+                    model_conf.update(conf)
                 else:
                     ca, cb, _ = pair.connect_pair(k, rpyc.VoidService(), rpyc.VoidService(), cfg_b=dict(conf), tap=False)
                     srv = sim.spawn(cb.serve_all, _name="B%d.serve_all" % ci)
@@ -108,6 +124,10 @@ def run_one(choices, params):
                 conns.append((ca, cb, model_conf, srv))
         if mode == "isolation":
             sim.count("c06:isolation-run")
+        if shared is not None:
+            # and afterwards the dict is edited once more (everything allowed): no open connection may follow
+            shared.update(allow_all_attrs=True, allow_setattr=True, allow_delattr=True, allow_getattr=True, allow_public_attrs=True,
+                          exposed_prefix="")
 
         def fetch(ca, cb, obj):
             """a proxy of obj on connection ca without going through any attribute access"""
